@@ -196,7 +196,7 @@ theorem walkHyp (h : HWM c S codes t) {pfs : Array PFS.PrefetchSupport}
     WalkHyp c t codes[sym]! pfs (fun k => digsQ (qdig codes) (qlen codes) k S)
       (fun k => blkStartQ (qdig codes) (qlen codes) sym S k
         + cntP (qdig codes) (qlen codes) sym S k i) where
-  levels_le := by have := (h.code_bound sym).1; omega
+  levels_le := by have := (h.code_bound sym).1; have := PfsP.rate_ge_16; omega
   qvs := by
     intro k hk
     have hks : k < t.qvs.size := by
